@@ -540,4 +540,10 @@ def optReply (code : Bytes) : Option CReply → Bytes
   | none => []
   | some c => c.bytes code
 
+
+/-- decimal rendering of a natural number (`str(n)`), as bytes -/
+def decBytes (n : Nat) : Bytes := (Nat.toDigits 10 n).map Char.toNat
+/-- the version string `a.b.c` -/
+def renderVersion (a b c : Nat) : Bytes := decBytes a ++ 46 :: (decBytes b ++ 46 :: decBytes c)
+
 end TIV.C12
